@@ -458,6 +458,62 @@ class SmallACStream(UnifyStream):
                    "target": dumps(expr_to_sx(tgt)), "cands": ["x", "y"]}
 
 
+class TableStream(Stream):
+    """T-gen tie: the compiled TABLE INTERPRETER (lean/PV/Model/UnifyTable.lean) run on the table
+    regenerated from the source of unifier.py on this run, against the real unifier: records in
+    yield order, lmap AND rmap in insertion order.  This is what the reader extract/unifier.py and
+    the meaning given to the table language are trusted through."""
+    name = "unifier-table"
+
+    def cases(self, rng, tier):
+        n_a, n_b = (500, 350) if tier == "quick" else (6000, 5000)
+        a = list(itertools.islice(UnifyStream().cases(rng, tier), n_a))
+        b = list(itertools.islice(SmallACStream().cases(rng, tier), n_b))
+        yield from a
+        yield from b
+
+    def request(self, pl):
+        cs = " ".join(dumps(c) for c in pl["cands"])
+        return f"(unify-table ({cs}) {pl['pattern']} {pl['target']})"
+
+    def run_impl(self, pl):
+        try:
+            recs = run_unifier(pl)
+        except RecursionError:
+            raise
+        except Exception as ex:
+            return err_sx(ex)
+
+        def amap(m):
+            return "(" + " ".join(f"({dumps(k)} {dumps(expr_to_sx(v))})" for k, v in m.items()) + ")"
+        return "(ok" + "".join(f" ({amap(r.lmap)} {amap(r.rmap)})" for r in recs) + ")"
+
+    def agree(self, model, impl, pl):
+        if "(noclaim)" in model:
+            return "trivial"
+        if impl.startswith("(err"):
+            # the code raised: the table must not claim a result
+            return "trivial" if not model.startswith("(ok") else "diff"
+        return "ok" if model == impl else "diff"
+
+    def oracle(self, pl):
+        return None          # the instantiation law is checked by the streams above
+
+    def shrink(self, pl):
+        return iter(())
+
+    def nontrivial_key(self, pl, model, impl):
+        if impl.startswith("(err") or impl == "(ok)":
+            return None
+        return pl["pattern"] + "|" + pl["target"] + "|" + ",".join(pl["cands"])
+
+    def stats(self, pl, mo, io, acc):
+        k = "raises" if io.startswith("(err") else "no-record" if io == "(ok)" else "records"
+        acc[k] = acc.get(k, 0) + 1
+        if mo is not None and mo.startswith("(stuck"):
+            acc["table_stuck"] = acc.get("table_stuck", 0) + 1
+
+
 # {{{ matchpy bridge (oracle only: matchpy's matcher is an external runtime)
 
 MP_KINDS = ["sum", "sum", "sum", "prod", "prod", "quot", "floordiv", "rem", "pow", "call", "call",
@@ -787,10 +843,17 @@ def extract(ctx=None):
     return extract_matchpy(ctx)
 
 
+def extract_unifier(ctx=None):
+    """T-gen: every function of pymbolic/mapper/unifier.py translated statement by statement into
+    lean/PV/Generated/Unifier.lean"""
+    from extract.unifier import extract_unifier as ex
+    return ex(ctx)
+
+
 PROP = Prop(
     id="C16",
     title="Pattern matching results are sound",
-    lean_targets=["PV.Properties.C16"],
+    lean_targets=["PV.Properties.C16", "PV.Properties.C16Table"],
     theorems=[],
     partial={
         "PV.C16.unify_sound_partial":
@@ -819,14 +882,18 @@ PROP = Prop(
             "(decidable `pairwiseNe`); otherwise the dict comprehension overwrites a count "
             "(replacement_multiset_overwrite_cex, known finding)",
     },
-    streams=[UnifyStream(), SmallACStream(), MatchpyStream(), ConvertStream(), FromStream(),
+    streams=[UnifyStream(), SmallACStream(), TableStream(), MatchpyStream(), ConvertStream(), FromStream(),
              OrderStream(), ReplacementStream()],
     probes=[probes],
-    extractors=[extract],
+    extractors=[extract, extract_unifier],
     trusted_base=[
         "Lean 4.33 kernel; axioms propext, Classical.choice, Quot.sound only",
         "harness serialisation; Expr.pyEq as the model of Python == (C01)",
         "flattened_sum / flattened_product as modelled in lean/PV/Model/Ops.lean (C03)",
+        "unifier table (T-gen): the reader extract/unifier.py (Python name resolution, alias check) and "
+        "the meaning lean/PV/Model/UnifyTable.lean gives the table language (value semantics, "
+        "ascending iteration of small-int sets, itertools.combinations, Mapper.__call__ = the dispatch "
+        "model of C04) — tied to the code by the unifier-table stream",
         "matchpy's matcher (match / match_anywhere / replace_all: external runtime, only observed); "
         "its Operation metaclass (flatten / one-identity / sort) and CPython 3.12 list.sort for "
         "fewer than 64 elements are modelled (mk, pySort) and tied by the matchpy-order stream",
@@ -844,8 +911,8 @@ PROP = Prop(
         "results are checked by the independent oracles only (matchpy's matcher is an external "
         "runtime)",
     ],
-    level_text='Lean theorems about a model of UnidirectionalUnifier (unify_map, records with lmap/rmap, all structural rules, map_commut_assoc with candidate pairing and leftover partitioning), unbounded in tree size and arity: on ALL inputs every record binds only declared variables and each of them once; on all inputs outside five explicitly excluded shapes (decidable guards) every record binds every pattern variable and instantiates the pattern to the target up to reordering / regrouping of sums and products (an inductive congruence with a proved-sound normal-form decision procedure). Each excluded shape is proved to violate the law by a concrete witness and is a known finding replayed on the code. Completeness: if the target is the pattern under a renaming that is injective on its variables and fixes the non-candidates, a record is returned and one of the records is the renaming (full strength on the fragment, including degenerate sums). AC-equal trees have equal values in every field of characteristic 0. The model is tied to the code by exact comparison of the record lists (order, binding order) and of the per-record verdicts (Lean acEquiv vs an independent Python AC normaliser) on ~4k cases per quick run; "guards imply all verdicts true" and renaming completeness are also checked on the real records. Matchpy bridge: a Lean model of the term classes of the bridge (flag / arity table regenerated from the live classes on every run and compared by `decide`), of the constructor of matchpy (flatten, sort with the list.sort of CPython on the non-transitive `<`), of both mappers and of ToFromReplacement; theorems: exactly which trees convert; the conversion round trip returns the tree unchanged on the decidable fragment `bridgeNormal`, and for EVERY convertible wildcard-free tree returns a tree equal up to operand order of the operators declared commutative, merging of nested applications of operators declared associative and tuple-writing of indices, with the same value in every field of characteristic 0; every class declared commutative / associative stands for an n-ary node whose evalC value is invariant under permutation / regrouping (no class is declared one-identity), and the constructor of matchpy preserves the value; ToFromReplacement hands every captured operand to the callback with its multiplicity when the images of the captured keys are pairwise different, which is proved for every Multiset of pairwise different well-formed name-free terms, i.e. for everything captured from a converted subject (fromM reflects ==). Tied to the code by ~9k structural comparisons per quick run (terms printed structurally). match / match_anywhere / replace_all results (the matcher of matchpy) are checked by independent oracles only.',
+    level_text='The model of the unifier is proved to be what the CURRENT SOURCE of pymbolic/mapper/unifier.py prescribes: every function of the module (unify_map, UnificationRecord, unify_many, unification_record_from_equation, all map_* handlers, map_commut_assoc with match_children / match_plain_var_candidates / subsets / partitions) is re-read statement by statement on every run into a table, and for all patterns of the model, all targets and all records one dispatched call of the table interpreter on that table equals unifyE (unifyE_eq_table_current; unifyE is the unique solution: unifyE_unique_current); the compiled interpreter on the regenerated table is compared with the real unifier on 850 cases per run. Lean theorems about a model of UnidirectionalUnifier (unify_map, records with lmap/rmap, all structural rules, map_commut_assoc with candidate pairing and leftover partitioning), unbounded in tree size and arity: on ALL inputs every record binds only declared variables and each of them once; on all inputs outside five explicitly excluded shapes (decidable guards) every record binds every pattern variable and instantiates the pattern to the target up to reordering / regrouping of sums and products (an inductive congruence with a proved-sound normal-form decision procedure). Each excluded shape is proved to violate the law by a concrete witness and is a known finding replayed on the code. Completeness: if the target is the pattern under a renaming that is injective on its variables and fixes the non-candidates, a record is returned and one of the records is the renaming (full strength on the fragment, including degenerate sums). AC-equal trees have equal values in every field of characteristic 0. The model is tied to the code by exact comparison of the record lists (order, binding order) and of the per-record verdicts (Lean acEquiv vs an independent Python AC normaliser) on ~4k cases per quick run; "guards imply all verdicts true" and renaming completeness are also checked on the real records. Matchpy bridge: a Lean model of the term classes of the bridge (flag / arity table regenerated from the live classes on every run and compared by `decide`), of the constructor of matchpy (flatten, sort with the list.sort of CPython on the non-transitive `<`), of both mappers and of ToFromReplacement; theorems: exactly which trees convert; the conversion round trip returns the tree unchanged on the decidable fragment `bridgeNormal`, and for EVERY convertible wildcard-free tree returns a tree equal up to operand order of the operators declared commutative, merging of nested applications of operators declared associative and tuple-writing of indices, with the same value in every field of characteristic 0; every class declared commutative / associative stands for an n-ary node whose evalC value is invariant under permutation / regrouping (no class is declared one-identity), and the constructor of matchpy preserves the value; ToFromReplacement hands every captured operand to the callback with its multiplicity when the images of the captured keys are pairwise different, which is proved for every Multiset of pairwise different well-formed name-free terms, i.e. for everything captured from a converted subject (fromM reflects ==). Tied to the code by ~9k structural comparisons per quick run (terms printed structurally). match / match_anywhere / replace_all results (the matcher of matchpy) are checked by independent oracles only.',
     level_note='Trusted: Lean kernel; the harness; Expr.pyEq for Python ==; matchpy is an external runtime (its matcher is not modelled). The instantiation law is FALSE on the current tree in five shapes (empty leftover bound to 0/1, neutral leftover operands dropped, zero factor collapsing a product share, empty Sum/Product pattern resetting the records, 1-tuple subscript index unpacked) and for the bridge in three (nested associative operators flattened by matchpy; replace_all below call arguments / subscript indices splices operands; ToFromReplacement overwrites the count of Multiset keys that differ only in a variable_name): all eight are known findings with minimal inputs. Crashes are not counted as violations (match / match_anywhere raise on every star wildcard; Min/Max/bitwise/logical patterns raise in generate_permutations(range(n))).',
-    technique='Lean 4 mutual-induction soundness proof of the unifier model w.r.t. an inductive AC congruence + invariant-based refutations + differential correspondence (records and verdicts) + independent AC-normaliser oracles for the unifier and the matchpy bridge + regenerated class table (T-gen) and structural term correspondence for the bridge model',
+    technique='source of unifier.py re-read on every run into a statement-level table (T-gen) + Lean proof that the hand-written unifier model is the table interpreter run on that table (all arguments; unique solution of the dispatch equation) + Lean 4 mutual-induction soundness proof of the unifier model w.r.t. an inductive AC congruence + invariant-based refutations + differential correspondence (records and verdicts) + independent AC-normaliser oracles for the unifier and the matchpy bridge + regenerated class table (T-gen) and structural term correspondence for the bridge model',
     design_ref="DESIGN.md §4 C16",
 )
